@@ -710,6 +710,17 @@ func genElem() *rapid.Generator[string] {
 func genValue(typ string) *rapid.Generator[string] {
 	return rapid.Custom(func(t *rapid.T) string {
 		if typ == "collection" {
+			if rapid.IntRange(0, 11).Draw(t, "big") == 0 {
+				// a long collection: a fixed head and tail around 64-80 small numbers, so that two
+				// such values differ in a large middle part behind a common prefix
+				k := rapid.IntRange(64, 80).Draw(t, "biglen")
+				parts := []string{`"head"`, `"h2"`}
+				for i := 0; i < k; i++ {
+					parts = append(parts, strconv.Itoa(rapid.IntRange(0, 9).Draw(t, "bigelem")))
+				}
+				parts = append(parts, `"tail"`)
+				return "[" + strings.Join(parts, ",") + "]"
+			}
 			n := rapid.IntRange(0, 6).Draw(t, "len")
 			parts := make([]string, n)
 			for i := range parts {
